@@ -30,11 +30,32 @@ def ops_for(cls):
     return ops
 
 
+INF = float("inf")
+# edge values the classes allow (each prints a warning at most): appended to the grammar's parameter tuples for C04 only
+EDGE_PARAMS = {
+    "StronglyConvexFunction": [{"mu": 0.0}],
+    "SmoothConvexFunction": [{"L": INF}],
+    "SmoothStronglyConvexFunction": [{"mu": 0.1, "L": INF}, {"mu": 0.0, "L": INF}],
+    "SmoothConvexLipschitzFunction": [{"L": INF, "M": 1.0}],
+    "CocoerciveOperator": [{"beta": 0.0}],
+    "CocoerciveStronglyMonotoneOperator": [{"mu": 0.0, "beta": 0.0}, {"mu": 0.0, "beta": 1.0}, {"mu": 0.5, "beta": 0.0}],
+    "StronglyMonotoneOperator": [{"mu": 0.0}],
+    "LipschitzStronglyMonotoneOperator": [{"mu": 0.0, "L": 1.0}],
+    "NegativelyComonotoneOperator": [{"rho": 0.0}],
+    "SymmetricLinearOperator": [{"mu": 0.0, "L": 1.0}, {"mu": 1.0, "L": 1.0}],
+    "SmoothStronglyConvexQuadraticFunction": [{"mu": 1.0, "L": 1.0}],
+}
+
+
+def params_of(cls):
+    return list(models.CLASSES[cls]["params"]) + EDGE_PARAMS.get(cls, [])
+
+
 def build(cls, par_index, hist, named):
     """Replays a declaration history on a fresh PEP; returns (f, ctx dict) or None if the history is not enabled."""
     from PEPit import PEP, Point
     info = models.CLASSES[cls]
-    par = dict(info["params"][par_index])
+    par = dict(params_of(cls)[par_index])
     p = PEP()
     kw = dict(par)
     part = None
@@ -43,7 +64,9 @@ def build(cls, par_index, hist, named):
         kw["partition"] = part
     if named:
         kw["name"] = "F"
-    f = p.declare_function(models.get_class(cls), **kw)
+    import contextlib, io
+    with contextlib.redirect_stdout(io.StringIO()):      # edge parameter values print an advisory message
+        f = p.declare_function(models.get_class(cls), **kw)
     pts = []
     k = 0
     for op in hist:
@@ -180,7 +203,7 @@ def judge(cls, par_index, hist, named, reparam=None):
     try:
         f.set_class_constraints()
         if reparam is not None:
-            par = dict(models.CLASSES[cls]["params"][reparam])
+            par = dict(params_of(cls)[reparam])
             for k_, v_ in par.items():
                 if not hasattr(f, k_):
                     return None, "disabled"
@@ -322,7 +345,7 @@ def _depth(tier):
 def shards(tier):
     out = []
     for cls in models.CLASS_NAMES:
-        npar = len(models.CLASSES[cls]["params"])
+        npar = len(params_of(cls))
         for pi in range(npar):
             for first in ops_for(cls):
                 out.append(dict(cls=cls, par=pi, first=first, depth=_depth(tier)))
@@ -344,7 +367,7 @@ def run_shard(shard, tier):
         for rest in itertools.product(ops, repeat=depth - 1):
             hist = (shard["first"],) + rest
             variants = [(False, None)] + ([(True, None)] if depth <= 2 else [])
-            npar = len(models.CLASSES[cls]["params"])
+            npar = len(params_of(cls))
             if depth <= 2 and npar > 1 and cls != "BlockSmoothConvexFunction":
                 variants.append((False, (shard["par"] + 1) % npar))
             for named, reparam in variants:
